@@ -219,6 +219,7 @@ func init() {
 	registerTime()
 	registerMisc()
 	registerReflect()
+	registerJSON()
 }
 
 func (i *Interp) boolArg(v value, what string) *smt.Term {
